@@ -513,4 +513,179 @@ U_CT = Unit(P + '/Geo_Container-transforms', ['Geo_Container.rotate', 'Geo_Conta
             canaries=[Canary('scale-ignores-the-tag', 'Geo_Container.scale', _ScaleAll,
                              [P + '/Geo_Container-transforms/scale/'])])
 
-UNITS = [U_SEG, U_EQ, U_CURVE, U_ARC, U_ROT, U_WT, U_CT]
+
+
+# ================================================================ Helix.__init__
+def t_helix(eng):
+    n = P + '/Helix.__init__/'
+    hx = SObj('Helix', label='helix')
+    nseg = fresh_int('n')
+    L, T, r = fresh_real('length'), fresh_real('turnlen'), fresh_real('r')
+    rx1, ry1, rx2, ry2 = (fresh_real(x) for x in ('rx1', 'ry1', 'rx2', 'ry2'))
+    eng.inline.update(['Geobj.__init__', 'Connected_Geobj.__init__'])
+    absL = B.np_abs(eng, [L], {})
+
+    def check(eng_, before, i, it, got):
+        l0, l1 = before[('local', 'segends')], got[('local', 'segends')]
+        added = l1.chunks[-1][1] if l1.chunks and l1.chunks[-1][0] == 'conc' else []
+        if l0.chunks and l0.chunks[-1][0] == 'conc' and len(l1.chunks) == len(l0.chunks):
+            added = added[len(l0.chunks[-1][1]):]
+        eng_.oblige(n + 'loop/one-point-per-segment', len(added) == 1)
+        if len(added) != 1:
+            return
+        x, y, z = added[0].concrete()
+        f = r_div(i, nseg)
+        xm = r_add(r_mul(f, r_sub(rx2, rx1)), rx1)
+        ym = r_add(r_mul(f, r_sub(ry2, ry1)), ry1)
+        eng_.oblige(n + 'loop/height-is-uniform-(i/n-of-the-length)', num_eq(z, r_mul(f, absL)))
+        # (x/xm)^2 + (y/ym)^2 = 1  written without division
+        eng_.oblige(n + 'loop/point-lies-on-the-linearly-tapered-ellipse',
+                    num_eq(r_add(r_mul(r_mul(x, x), r_mul(ym, ym)), r_mul(r_mul(y, y), r_mul(xm, xm))),
+                           r_mul(r_mul(xm, xm), r_mul(ym, ym))))
+        if eng_.decide(r_cmp('==', i, 0)):
+            if eng_.decide(r_cmp('>', L, 0)):
+                eng_.oblige(n + 'loop/start-point-(rx1,0,0)-for-a-positive-length', b_and(num_eq(x, rx1), num_eq(y, 0), num_eq(z, 0)))
+            else:
+                eng_.oblige(n + 'loop/start-point-(0,ry1,0)-for-a-negative-length', b_and(num_eq(x, 0), num_eq(y, ry1), num_eq(z, 0)))
+
+    def result(eng_, init, seq):
+        l = init[('local', 'segends')].copy()
+        l.chunks.append(('opaque', 'helix-points', seq.length))
+        return {('local', 'segends'): l}
+    eng.loop_specs[('Helix.__init__', 0)] = LoopSpec([('local', 'segends')], None, P + '.helix', [hx.ident], check=check, result=result)
+    try:
+        eng.call_qual('Helix.__init__', [hx, nseg, L, T, r, rx1, ry1, rx2, ry2])
+    except PyRaise as ex:
+        eng.cover('helix/raise')
+        bad = z3.Or(term(r, True) <= 0, term(rx1, True) <= 0, term(ry1, True) <= 0, term(rx2, True) <= 0, term(ry2, True) <= 0,
+                    term(T, True) == 0, term(L, True) == 0, term(nseg) < 3)
+        eng.oblige(n + 'rejects-with-ValueError-only', ex.cls == 'ValueError')
+        eng.oblige(n + 'accepts-every-helix-with-positive-radii-nonzero-length-and-turn-length-and-enough-segments',
+                   z3.Or(bad, term(nseg, True) * (z3.If(term(T, True) >= 0, term(T, True), -term(T, True))) <
+                         3 * z3.If(term(L, True) >= 0, term(L, True), -term(L, True))))
+        return
+    eng.cover('helix/ok')
+    se = hx.fields['segends']
+    if isinstance(se, SList):
+        se = SList([c for c in se.chunks if not (c[0] == 'conc' and not c[1])])
+    ok = isinstance(se, SList) and len(se.chunks) == 2 and se.chunks[0][0] == 'opaque' and len(se.chunks[1][1]) == 1
+    eng.oblige(n + 'n+1-points', ok)
+    if ok:
+        x, y, z = se.chunks[1][1][0].concrete()
+        eng.oblige(n + 'last-point-at-full-height-on-the-end-ellipse',
+                   b_and(num_eq(z, absL),
+                         num_eq(r_add(r_mul(r_mul(x, x), r_mul(ry2, ry2)), r_mul(r_mul(y, y), r_mul(rx2, rx2))),
+                                r_mul(r_mul(rx2, rx2), r_mul(ry2, ry2)))))
+
+
+class _HelixNoTaper(ast.NodeTransformer):
+    def visit_Assign(self, node):
+        if ast.unparse(node.targets[0]) == 'ym':
+            node.value = ast.Name('ry1', ast.Load())
+        return node
+
+
+class _HelixZ(ast.NodeTransformer):
+    def visit_Assign(self, node):
+        if ast.unparse(node.targets[0]) == 'f' and 'n_segments' in ast.unparse(node.value):
+            node.value = ast.parse('i / (n_segments - 1)').body[0].value
+        return node
+
+
+U_HELIX = Unit(P + '/Helix.__init__', ['Helix.__init__', 'Geobj.__init__'], t_helix, SCH,
+               canaries=[Canary('helix-y-radius-not-tapered', 'Helix.__init__', _HelixNoTaper, [P + '/Helix.__init__/loop/point-lies']),
+                         Canary('helix-height-step', 'Helix.__init__', _HelixZ, [P + '/Helix.__init__/loop/height'])])
+
+
+
+# ================================================================ taper1 / taper2: the emitting loop
+def t_taper_loop(eng):
+    """slice: from `minc = ...` to the end of taper1 (end = 0) / taper2, for one-dimensional end points (the statements
+    are dimension-generic).  Whatever smallest increment the preamble chose: exactly n pieces are emitted, the first
+    starts at p1, every piece starts where the previous one ended, the last ends at p2.  (Growth factor and the
+    min/max limits are the bounded stand-in's business; the limit assertions inside taper1's loop may fire: C20.)"""
+    which = eng.choose(2)
+    q = ['taper1', 'taper2'][which]
+    n_ = P + '/' + q + '[emitting loop]/'
+    f = eng.get_fnode(q)
+    from pyvc.source import find_stmt, loops_of
+    first = find_stmt(f, lambda x: isinstance(x, ast.Assign) and ast.unparse(x.targets[0]) == 'minc' and x in f.body)
+    k0 = f.body.index(first)
+    loop = [x for x in f.body[k0:] if isinstance(x, ast.For)][0]
+    p1, p2 = fresh_real('p1'), fresh_real('p2')
+    n = fresh_int('n')
+    eng.assume(r_cmp('>=', n, 2))
+    lv = r_sub(p2, p1)
+    l = B.np_abs(eng, [lv], {})
+    eng.assume(r_cmp('>', l, 0))
+    minl = fresh_real('minl')
+    eng.assume(r_cmp('>', minl, 0))
+    min_t = fresh_real('min_t')
+    has_max = eng.choose(2) == 1
+    max_t = fresh_real('max_t') if has_max else None
+    env = {'p1': p1, 'p2': p2, 'n': n, 'lv': lv, 'l': l, 'minl': minl, 'eps': r_div(minl, 10), 'min_t': min_t, 'max_t': max_t}
+    ys = SList()
+    state = {}
+
+    def on_entry(e_, init):
+        state['init'] = init
+
+    def inv(e_, i, vals):
+        y = vals[('yield',)]
+        # the running point is where the last emitted piece ended (p1 before the first piece); i pieces so far
+        return num_eq(y.length(), i)
+
+    def check(e_, before, i, it, got):
+        y0, y1 = before[('yield',)], got[('yield',)]
+        added = y1.chunks[-1][1] if y1.chunks and y1.chunks[-1][0] == 'conc' else []
+        if y0.chunks and y0.chunks[-1][0] == 'conc' and len(y1.chunks) == len(y0.chunks):
+            added = added[len(y0.chunks[-1][1]):]
+        e_.oblige(n_ + 'one-piece-per-iteration', len(added) == 1)
+        if len(added) != 1:
+            return
+        a, b = added[0]
+        e_.oblige(n_ + 'piece-starts-where-the-previous-ended-(p1-for-the-first)', num_eq(a, before[('local', 'p')]))
+        if e_.decide(r_cmp('==', i, r_sub(n, 1))):
+            e_.oblige(n_ + 'last-piece-ends-at-p2', num_eq(b, p2))
+        else:
+            e_.oblige(n_ + 'running-point-advances-to-the-end-of-the-piece', num_eq(got[('local', 'p')], b))
+    carried = [('yield',), ('local', 'p'), ('local', 'state'), ('local', 'inc1')] + ([('local', 'bound')] if which else [])
+    spec = LoopSpec(carried, None, P + '.' + q + '.emit', [], check=check, inv=inv, exits=('raise:AssertionError',))
+    spec.on_entry = on_entry
+    eng.loop_specs[(q, loops_of(f).index(loop))] = spec
+    eng.frames.append({'fref': eng.fref(q), 'env': env, 'qual': q, 'node': f})
+    eng.yield_stack.append(ys)
+    env['inc1'] = 0
+    if which:
+        env['bound'] = 0
+    try:
+        try:
+            for st in f.body[k0:]:
+                eng.exec_stmt(st, env)
+        except PyRaise as ex:
+            eng.oblige(n_ + 'only-the-limit-assertions-may-stop-the-loop', ex.cls == 'AssertionError')
+            return
+    finally:
+        ys = eng.yield_stack.pop()
+        eng.frames.pop()
+    eng.cover(q + '-emit-%d' % has_max)
+    eng.oblige(n_ + 'exactly-n-pieces', num_eq(ys.length(), n))
+    eng.oblige(n_ + 'starts-at-p1', num_eq(state['init'][('local', 'p')], p1))
+
+
+class _TaperSkipP(ast.NodeTransformer):
+    """p = p + inc  ->  p = p + 2 * inc"""
+
+    def visit_Assign(self, node):
+        if ast.unparse(node.targets[0]) == 'p' and ast.unparse(node.value).replace(' ', '') == 'p+inc':
+            node.value = ast.parse('p + 2 * inc').body[0].value
+        return node
+
+
+U_TLOOP = Unit(P + '/taper-emitting-loops', ['taper1', 'taper2'], t_taper_loop, SCH,
+               slices={'taper1': 'from `minc = ...` to the end (end = 0 branch); dropped: the preamble that chooses the smallest increment',
+                       'taper2': 'from `minc = ...` to the end; dropped: the preamble'},
+               canaries=[Canary('taper1-running-point-skips', 'taper1', _TaperSkipP, [P + '/taper1[emitting loop]/']),
+                         Canary('taper2-running-point-skips', 'taper2', _TaperSkipP, [P + '/taper2[emitting loop]/'])])
+
+UNITS = [U_SEG, U_EQ, U_CURVE, U_ARC, U_ROT, U_WT, U_CT, U_HELIX, U_TLOOP]
